@@ -304,6 +304,10 @@ func (namespaceManager *NamespaceManager) AssertPrefixMappingForExpansion(uriExp
 		state.ExpansionToPrefixMapping = namespaceManager.expansionToPrefixMapping
 		err := namespaceManager.store.StoreObject(NamespacesIndex, "namespacestate", state)
 		if err != nil {
+			// not stored: take the mapping back. Left in memory it is served to context readers and to the
+			// next caller, and it is gone (its prefix given to another namespace) after the next start
+			delete(namespaceManager.prefixToExpansionMapping, prefix)
+			delete(namespaceManager.expansionToPrefixMapping, uriExpansion)
 			return "", err
 		}
 	}
